@@ -7,11 +7,16 @@
 //! switches: the fast-exp cut-off -500, the ln(1-e^p) branch point -0.693, every argument at which
 //! d*log2(e) crosses an integer (the exponent bit trick of fastexp), and d -> -0.
 //! "exhaustive" in the evidence refers to these grids.
+//! Appended unit "entry-points": is_valid, cap_numerical_overshoot, Sum, += / -=, NotNan
+//! conversions, Default and num_traits::Zero, each as an equivalent route to the above.
 
 use super::Prop;
 use crate::ctx::{guard, CaseCtx, Ctx, Tier};
 use bio::stats::{LogProb, PHREDProb, Prob};
+use num_traits::Zero;
+use ordered_float::NotNan;
 use serde_json::{json, Value};
+use std::convert::TryFrom;
 
 pub struct C15Prop;
 pub static C15: C15Prop = C15Prop;
@@ -881,6 +886,292 @@ fn run_misc(tier: Tier, ctx: &mut Ctx) {
     ctx.case(|| json!({"kind": "empty-sum"}), check_empty_sum);
 }
 
+// --------------------------------------------------------------- entry points (appended unit)
+//
+// Accessors, operator impls and conversions that the clauses above never call.  Each is checked as
+// an equivalent route to arithmetic / conversions the module already checks.
+
+/// valid log-probabilities: the coarse pair grid (-inf, 0, -0.05*i, the regime boundaries) and -0.0
+fn entry_grid() -> Vec<f64> {
+    let mut g = pair_grid(400, 0.05);
+    g.push(-0.0);
+    g
+}
+
+/// values above ln(1) = 0, i.e. not log-probabilities
+const POSITIVES: &[f64] = &[5e-324, 1e-300, 1e-17, 1e-12, 1e-9, 1e-6, 0.001, 0.5, 1.0, 2.0, 1e300, f64::INFINITY];
+
+const CAP_EPSILONS: &[f64] = &[0.0, 1e-12, 1e-6, 0.5];
+
+fn same(a: f64, b: f64) -> bool {
+    a.to_bits() == b.to_bits() || (a.is_nan() && b.is_nan())
+}
+
+/// LogProb::is_valid: exactly the values in [-inf, 0]
+fn check_is_valid(cc: &mut CaseCtx) {
+    let mut a = Acc::new();
+    a.nontrivial = true;
+    let mut vals: Vec<(f64, bool)> = entry_grid().into_iter().map(|x| (x, true)).collect();
+    vals.extend(POSITIVES.iter().map(|&x| (x, false)));
+    vals.push((f64::NAN, false));
+    for (x, want) in vals {
+        match guard(|| LogProb(x).is_valid()) {
+            Err(m) => a.fail("is_valid", "panic", || format!("x={}: {}", show(x), m)),
+            Ok(got) => {
+                a.obs(got as u8 as f64);
+                if got && !want {
+                    a.fail("is_valid", "accepts-invalid", || format!("x={} is not in [-inf, 0] but is_valid() is true", show(x)));
+                } else if !got && want {
+                    a.fail("is_valid", "rejects-valid", || format!("x={} is in [-inf, 0] but is_valid() is false", show(x)));
+                }
+            }
+        }
+    }
+    a.finish(cc)
+}
+
+/// cap_numerical_overshoot(eps): values <= 0 unchanged; 0 < x <= eps becomes ln(1); x > eps panics
+fn check_cap(eps: f64, cc: &mut CaseCtx) {
+    let mut a = Acc::new();
+    a.nontrivial = eps > 0.0;
+    for x in entry_grid() {
+        match guard(|| *LogProb(x).cap_numerical_overshoot(eps)) {
+            Err(m) => a.fail("cap_numerical_overshoot", "panic-on-valid-value", || format!("x={} eps={}: {}", show(x), eps, m)),
+            Ok(r) => {
+                a.obs(r);
+                if r.to_bits() != x.to_bits() {
+                    a.fail("cap_numerical_overshoot", "valid-value-changed", || format!("x={} eps={} became {}", show(x), eps, show(r)));
+                }
+            }
+        }
+    }
+    let mut over: Vec<f64> = POSITIVES.to_vec();
+    if eps > 0.0 {
+        over.extend([eps / 2.0, eps, f64::from_bits(eps.to_bits() + 1), f64::from_bits(eps.to_bits() - 1), eps * 2.0, eps + 1.0]);
+    }
+    over.sort_by(|x, y| x.partial_cmp(y).unwrap());
+    over.dedup_by_key(|x| x.to_bits());
+    for x in over {
+        let r = guard(|| *LogProb(x).cap_numerical_overshoot(eps));
+        if x <= eps {
+            match r {
+                Err(m) => a.fail("cap_numerical_overshoot", "panic-within-epsilon", || format!("x={} eps={}: {}", show(x), eps, m)),
+                Ok(r) => {
+                    a.obs(r);
+                    if r != 0.0 {
+                        a.fail("cap_numerical_overshoot", "not-capped-to-ln-one", || format!("x={} eps={} became {}", show(x), eps, show(r)));
+                    }
+                }
+            }
+        } else if let Ok(r) = r {
+            a.obs(r);
+            a.fail("cap_numerical_overshoot", "overshoot-beyond-epsilon-accepted", || format!("x={} exceeds eps={} but {} was returned instead of a panic", show(x), eps, show(r)));
+        }
+    }
+    a.finish(cc)
+}
+
+/// iter::Sum for LogProb (by value and by reference): the sum of the log values, i.e. the product
+/// of the probabilities; the empty product is ln(1)
+fn check_sum_impls(prefix: &[f64], h: &[f64], with_empty: bool, cc: &mut CaseCtx) {
+    let mut a = Acc::new();
+    let mut lists: Vec<Vec<f64>> = h.iter().map(|&x| prefix.iter().cloned().chain(std::iter::once(x)).collect()).collect();
+    if with_empty {
+        lists.push(vec![]);
+    }
+    for xs in lists {
+        let lps: Vec<LogProb> = xs.iter().map(|&x| LogProb(x)).collect();
+        let want: f64 = xs.iter().fold(0.0, |s, &x| s + x);
+        if xs.len() >= 2 && want > NEG_INF {
+            a.nontrivial = true;
+        }
+        let by_val = guard(|| *lps.iter().cloned().sum::<LogProb>());
+        let by_ref = guard(|| *lps.iter().sum::<LogProb>());
+        for (op, r) in [("sum-by-value", by_val), ("sum-by-reference", by_ref)] {
+            match r {
+                Err(m) => a.fail(op, "panic", || format!("{:?}: {}", xs, m)),
+                Ok(r) => {
+                    a.obs(r);
+                    let ok = r == want || (r - want).abs() <= EXACT_REL * want.abs().max(1.0);
+                    if !ok {
+                        a.fail(op, "differs-from-sum-of-logs", || format!("{:?}: got {} expected {} (product of the probabilities)", xs, show(r), show(want)));
+                    }
+                }
+            }
+        }
+    }
+    a.finish(cc)
+}
+
+/// `a += q` / `a -= q` against `a + q` / `a - q`, and those against plain f64 arithmetic on the logs
+fn check_assign_ops(p: f64, grid: &[f64], cc: &mut CaseCtx) {
+    let mut a = Acc::new();
+    a.nontrivial = p > NEG_INF;
+    for &q in grid {
+        let r = guard(|| {
+            let (lp, lq) = (LogProb(p), LogProb(q));
+            let mut x = lp;
+            x += lq;
+            let mut y = lp;
+            y -= lq;
+            (*x, *(lp + lq), *y, *(lp - lq))
+        });
+        match r {
+            Err(m) => a.fail("assign-ops", "panic", || format!("p={} q={}: {}", show(p), show(q), m)),
+            Ok((x, add, y, sub)) => {
+                a.obs(x);
+                a.obs(y);
+                if !same(add, p + q) {
+                    a.fail("add-operator", "differs-from-f64-sum-of-logs", || format!("p={} q={}: p + q = {}", show(p), show(q), show(add)));
+                }
+                if !same(sub, p - q) {
+                    a.fail("sub-operator", "differs-from-f64-difference-of-logs", || format!("p={} q={}: p - q = {}", show(p), show(q), show(sub)));
+                }
+                if !same(x, add) {
+                    a.fail("add-assign", "differs-from-add", || format!("p={} q={}: += gives {} but + gives {}", show(p), show(q), show(x), show(add)));
+                }
+                if !same(y, sub) {
+                    a.fail("sub-assign", "differs-from-sub", || format!("p={} q={}: -= gives {} but - gives {}", show(p), show(q), show(y), show(sub)));
+                }
+            }
+        }
+    }
+    a.finish(cc)
+}
+
+/// LogProb <-> ordered_float::NotNan<f64>: value-preserving both ways, NaN refused
+fn check_notnan(cc: &mut CaseCtx) {
+    let mut a = Acc::new();
+    a.nontrivial = true;
+    let mut vals = entry_grid();
+    vals.extend_from_slice(POSITIVES);
+    for x in vals {
+        let r = guard(|| {
+            let n = NotNan::new(x).expect("grid value is not NaN");
+            let lp = LogProb::from(n);
+            let back = NotNan::<f64>::try_from(LogProb(x)).map(|n| n.into_inner());
+            (*lp, back.ok())
+        });
+        match r {
+            Err(m) => a.fail("conv/notnan", "panic", || format!("x={}: {}", show(x), m)),
+            Ok((lp, back)) => {
+                a.obs(lp);
+                if lp.to_bits() != x.to_bits() {
+                    a.fail("conv/notnan-to-logprob", "value-changed", || format!("NotNan({}) became LogProb({})", show(x), show(lp)));
+                }
+                match back {
+                    None => a.fail("conv/logprob-to-notnan", "rejects-number", || format!("LogProb({}) refused", show(x))),
+                    Some(b) => {
+                        if b.to_bits() != x.to_bits() {
+                            a.fail("conv/logprob-to-notnan", "value-changed", || format!("LogProb({}) became NotNan({})", show(x), show(b)));
+                        }
+                    }
+                }
+            }
+        }
+    }
+    match guard(|| NotNan::<f64>::try_from(LogProb(f64::NAN)).is_ok()) {
+        Err(m) => a.fail("conv/logprob-to-notnan", "panic", || format!("NaN: {}", m)),
+        Ok(true) => a.fail("conv/logprob-to-notnan", "accepts-nan", || "LogProb(NaN) converted to a NotNan".to_string()),
+        Ok(false) => {}
+    }
+    a.finish(cc)
+}
+
+/// Default and num_traits::Zero of the three scales all denote probability 0, consistently across
+/// the conversions; is_zero is true exactly for probability 0
+fn check_default_zero(cc: &mut CaseCtx) {
+    let mut a = Acc::new();
+    a.nontrivial = true;
+    let r = guard(|| {
+        (
+            *Prob::default(), *LogProb::default(), *PHREDProb::default(),
+            *<Prob as Zero>::zero(), *<LogProb as Zero>::zero(), *<PHREDProb as Zero>::zero(),
+            <Prob as Zero>::zero().is_zero(), <LogProb as Zero>::zero().is_zero(), <PHREDProb as Zero>::zero().is_zero(),
+        )
+    });
+    match r {
+        Err(m) => a.fail("default-zero", "panic", || m),
+        Ok((dp, dl, dph, zp, zl, zph, izp, izl, izph)) => {
+            for x in [dp, dl, dph, zp, zl, zph] {
+                a.obs(x);
+            }
+            // probability 0 in each scale, obtained through the conversions checked by the "conv" cases
+            let l0 = *LogProb::from(Prob(0.0));
+            let ph0 = *PHREDProb::from(Prob(0.0));
+            for (what, got, want) in [
+                ("default/prob", dp, 0.0), ("default/logprob", dl, l0), ("default/phred", dph, ph0),
+                ("zero/prob", zp, 0.0), ("zero/logprob", zl, l0), ("zero/phred", zph, ph0),
+            ] {
+                if !same(got, want) && !(got == want) {
+                    a.fail(what, "not-probability-zero", || format!("got {} but probability 0 is {} on this scale", show(got), show(want)));
+                }
+            }
+            if !same(dl, *LogProb::ln_zero()) {
+                a.fail("default/logprob", "not-probability-zero", || format!("LogProb::default() = {} but ln_zero() = {}", show(dl), show(*LogProb::ln_zero())));
+            }
+            for (what, got) in [("zero/prob", izp), ("zero/logprob", izl), ("zero/phred", izph)] {
+                if !got {
+                    a.fail(what, "zero-is-not-zero", || "zero().is_zero() is false".to_string());
+                }
+            }
+        }
+    }
+    // is_zero over the conversion grid: true exactly for p == 0, on every scale
+    for p in conversion_probs(Tier::Quick) {
+        let r = guard(|| {
+            let pr = Prob(p);
+            (pr.is_zero(), LogProb::from(pr).is_zero(), PHREDProb::from(pr).is_zero(), *(pr + Prob::zero()))
+        });
+        match r {
+            Err(m) => a.fail("zero/is_zero", "panic", || format!("p={}: {}", show(p), m)),
+            Ok((ip, il, iph, sum)) => {
+                a.obs((ip as u8 + 2 * il as u8 + 4 * iph as u8) as f64);
+                let want = p == 0.0;
+                for (what, got) in [("zero/prob", ip), ("zero/logprob", il), ("zero/phred", iph)] {
+                    if got != want {
+                        a.fail(what, if got { "is_zero-true-for-positive-probability" } else { "is_zero-false-for-probability-zero" }, || format!("p={}: is_zero() = {}", show(p), got));
+                    }
+                }
+                if !(sum == p) {
+                    a.fail("zero/prob", "not-neutral-for-addition", || format!("p={}: p + zero() = {}", show(p), show(sum)));
+                }
+            }
+        }
+    }
+    a.finish(cc)
+}
+
+const ENTRY_SUM_MAXLEN: usize = 3;
+
+fn run_entry(ctx: &mut Ctx) {
+    ctx.case(|| json!({"kind": "entry", "what": "is_valid"}), check_is_valid);
+    for &eps in CAP_EPSILONS {
+        ctx.case(|| json!({"kind": "entry", "what": "cap", "eps": fv(eps)}), |cc| check_cap(eps, cc));
+    }
+    // every list of length 0..=3 over H12: one case = one prefix with every last element
+    for plen in 0..ENTRY_SUM_MAXLEN {
+        let total = (H12.len() as u64).pow(plen as u32);
+        for mut k in 0..total {
+            let mut prefix = vec![0.0; plen];
+            for j in (0..plen).rev() {
+                prefix[j] = H12[(k % H12.len() as u64) as usize];
+                k /= H12.len() as u64;
+            }
+            ctx.case(
+                || json!({"kind": "entry", "what": "sum", "prefix": prefix.iter().map(|&x| fv(x)).collect::<Vec<_>>()}),
+                |cc| check_sum_impls(&prefix, H12, plen == 0, cc),
+            );
+        }
+    }
+    let grid = entry_grid();
+    for &p in &grid {
+        ctx.case(|| json!({"kind": "entry", "what": "assign", "p": fv(p)}), |cc| check_assign_ops(p, &grid, cc));
+    }
+    ctx.case(|| json!({"kind": "entry", "what": "notnan"}), check_notnan);
+    ctx.case(|| json!({"kind": "entry", "what": "default-zero"}), check_default_zero);
+}
+
 fn unit_names() -> Vec<String> {
     let mut v = vec![];
     v.extend((0..ROW_SHARDS).map(|i| format!("add-rows-{}", i)));
@@ -889,6 +1180,7 @@ fn unit_names() -> Vec<String> {
     v.extend((0..KERNEL_SHARDS).map(|i| format!("kernel-grid-{}", i)));
     v.extend((0..ULP_SHARDS).map(|i| format!("ulp-neighbourhoods-{}", i)));
     v.push("integration-conversions-checked".into());
+    v.push("entry-points".into());
     v
 }
 
@@ -900,7 +1192,7 @@ impl Prop for C15Prop {
         "exploration"
     }
     fn rule(&self) -> &'static str {
-        "The statement is over a continuum; decided is its restriction to finite grids plus bit-exhaustive neighbourhoods of the formula switch points (exhaustive refers to these sets). Enumerated once each: (a) every ordered pair of the operand grid G for ln_add_exp, every pair with p >= q for ln_sub_exp, every element for ln_one_minus_exp (one case = one first operand against all second operands); (b) every list of length 1..L over the operand set H for ln_sum_exp and ln_cumsum_exp (one case = one prefix with every last element) and the empty list; (c) the one-variable kernels d -> add(0,d), add(d,0), sum[d,0], sub(0,d), one_minus(d), Prob::from(LogProb(d)) on an equidistant grid over [-700,0] (one case = 4096 consecutive points) and on EVERY f64 within +-K ulps of each switch point: -500 (fast-exp cut-off), -0.693 (ln_1m_exp branch), ln 1/2, -0, the f64 underflow of exp, the point where 1+e^d rounds to 1, and all 721 arguments where d*log2(e) crosses an integer (one case = 4096 consecutive floats); (d) p against the floats up to span ulps below it for ln_sub_exp/ln_add_exp (relative_eq shortcut); (e) trapezoid / Simpson / grid-trapezoid helpers for six densities x intervals x n; (f) Prob<->LogProb<->PHRED conversions on p = i/1000 and 10^-j (j <= 323); (g) Prob::checked on boundary values. Non-trivial: at least one evaluation of the case has a second operand strictly between e^-500 and 1 times the largest operand, i.e. the approximate exponential contributes a non-zero term (conversions: 0 < p < 1; checked: the value must be rejected)."
+        "The statement is over a continuum; decided is its restriction to finite grids plus bit-exhaustive neighbourhoods of the formula switch points (exhaustive refers to these sets). Enumerated once each: (a) every ordered pair of the operand grid G for ln_add_exp, every pair with p >= q for ln_sub_exp, every element for ln_one_minus_exp (one case = one first operand against all second operands); (b) every list of length 1..L over the operand set H for ln_sum_exp and ln_cumsum_exp (one case = one prefix with every last element) and the empty list; (c) the one-variable kernels d -> add(0,d), add(d,0), sum[d,0], sub(0,d), one_minus(d), Prob::from(LogProb(d)) on an equidistant grid over [-700,0] (one case = 4096 consecutive points) and on EVERY f64 within +-K ulps of each switch point: -500 (fast-exp cut-off), -0.693 (ln_1m_exp branch), ln 1/2, -0, the f64 underflow of exp, the point where 1+e^d rounds to 1, and all 721 arguments where d*log2(e) crosses an integer (one case = 4096 consecutive floats); (d) p against the floats up to span ulps below it for ln_sub_exp/ln_add_exp (relative_eq shortcut); (e) trapezoid / Simpson / grid-trapezoid helpers for six densities x intervals x n; (f) Prob<->LogProb<->PHRED conversions on p = i/1000 and 10^-j (j <= 323); (g) Prob::checked on boundary values. Non-trivial: at least one evaluation of the case has a second operand strictly between e^-500 and 1 times the largest operand, i.e. the approximate exponential contributes a non-zero term (conversions: 0 < p < 1; checked: the value must be rejected). (h) entry points (appended unit): LogProb::is_valid on the coarse grid, positive values and NaN; cap_numerical_overshoot for four epsilons on the coarse grid and a ladder of positive values around epsilon; iter::Sum (by value and by reference) on every list of length 0..=3 over H12; += / -= / + / - on every ordered pair of the coarse grid (one case = one first operand); LogProb <-> NotNan<f64>; Default and num_traits::Zero of Prob / LogProb / PHREDProb with is_zero over the conversion probabilities."
     }
     fn assumptions(&self) -> Vec<&'static str> {
         vec![
@@ -913,6 +1205,7 @@ impl Prop for C15Prop {
             "Prob::checked: values inside [0,1] must be accepted unchanged, values outside and NaN rejected; -0.0 may go either way",
             "log-space operands are restricted to |ln p| <= 1e6 (plus -inf): for much larger magnitudes the spacing of f64 exceeds ln(1.005) and no representable result can satisfy the bound, whatever the implementation",
             "subject built with overflow checks and debug assertions on, as in the pinned test profile",
+            "entry points: is_valid means 'in [-inf, 0]'; cap_numerical_overshoot(eps) leaves values <= 0 unchanged, maps (0, eps] to ln 1 and panics above eps (its own panic message states this contract); Sum for LogProb adds the log values (a product of probabilities, empty product ln 1); the operators + - += -= are plain f64 arithmetic on the log values; Default and Zero::zero of each scale denote probability 0 and is_zero is true exactly for probability 0 (the num_traits law x + zero == x is only demanded for Prob, whose + is addition of probabilities)",
         ]
     }
     fn bounds(&self, tier: Tier) -> Value {
@@ -927,6 +1220,7 @@ impl Prop for C15Prop {
             "integration": {"densities": DENSITIES, "n": integration_ns(tier), "methods": ["trapezoid", "simpson (odd n)", "grid uniform", "grid quadratic"]},
             "conversions": {"probabilities": conversion_probs(tier).len()},
             "checked": checked_values().len(),
+            "entry_points": {"coarse_grid": entry_grid().len(), "positive_values": POSITIVES.len(), "cap_epsilons": CAP_EPSILONS, "sum_lists": format!("length 0..={} over H12", ENTRY_SUM_MAXLEN)},
             "tolerance": {"approximate": TOL, "exact_paths": EXACT_REL},
         })
     }
@@ -954,7 +1248,12 @@ impl Prop for C15Prop {
         if u < ULP_SHARDS {
             return run_ulps(tier, u, ctx);
         }
-        run_misc(tier, ctx)
+        u -= ULP_SHARDS;
+        match u {
+            0 => run_misc(tier, ctx),
+            1 => run_entry(ctx),
+            _ => {}
+        }
     }
     fn replay(&self, case: &Value, ctx: &mut Ctx) {
         let kind = case["kind"].as_str().unwrap_or("").to_string();
@@ -1020,6 +1319,30 @@ impl Prop for C15Prop {
                 None => bad(ctx),
             },
             "empty-sum" => ctx.case(|| case.clone(), check_empty_sum),
+            "entry" => match case["what"].as_str().unwrap_or("") {
+                "is_valid" => ctx.case(|| case.clone(), check_is_valid),
+                "cap" => match unfv(&case["eps"]) {
+                    Some(e) if e >= 0.0 => ctx.case(|| case.clone(), |cc| check_cap(e, cc)),
+                    _ => bad(ctx),
+                },
+                "sum" => {
+                    let prefix: Option<Vec<f64>> = case["prefix"].as_array().map(|a| a.iter().filter_map(unfv).collect());
+                    match prefix {
+                        Some(p) => ctx.case(|| case.clone(), |cc| check_sum_impls(&p, H12, p.is_empty(), cc)),
+                        None => bad(ctx),
+                    }
+                }
+                "assign" => match unfv(&case["p"]) {
+                    Some(p) => {
+                        let grid = entry_grid();
+                        ctx.case(|| case.clone(), |cc| check_assign_ops(p, &grid, cc))
+                    }
+                    None => bad(ctx),
+                },
+                "notnan" => ctx.case(|| case.clone(), check_notnan),
+                "default-zero" => ctx.case(|| case.clone(), check_default_zero),
+                _ => bad(ctx),
+            },
             _ => bad(ctx),
         }
     }
